@@ -49,6 +49,11 @@ def main():
     with open(a.out, "w") as out:
         if a.replay:
             rp = json.load(open(a.replay))
+            wu = rp.get("warmup")
+            if wu:
+                # state kept by the library across models: re-execute what this interpreter had executed before
+                for idx in range(wu["indices"][0], wu["indices"][1]):
+                    runner.run(a.property, mon, seed=wu["seed"], index=idx, n_ops=wu["nops"], opts=wu.get("opts") or {})
             t = time.time()
             res = runner.run(a.property, mon, ops=rp["ops"], header=rp["header"], digests=a.digests,
                              opts=rp.get("opts", opts))
